@@ -6,6 +6,7 @@ import (
 	"strings"
 	"testing"
 
+	"github.com/cosmos/iavl"
 	"pgregory.net/rapid"
 )
 
@@ -328,6 +329,29 @@ var specC15 = &worldSpec{
 		if v := w.checkChangeSetRange(1, 1<<62); v != nil {
 			return v
 		}
+		// arbitrary change sets (repeated keys, set-then-remove, remove-then-set, double removal, removal of a missing key)
+		for i := 0; i < 2; i++ {
+			n := rapid.IntRange(1, 6).Draw(t, "hcsN")
+			var pairs []*iavl.KVPair
+			var used [][]byte
+			for j := 0; j < n; j++ {
+				var k []byte
+				if len(used) > 0 && rapid.IntRange(0, 2).Draw(t, "hcsRepeat") == 0 {
+					k = rapid.SampledFrom(used).Draw(t, "hcsK0")
+				} else {
+					k = genRemoveKey(t, w.Vers[w.Latest].KV)
+				}
+				used = append(used, k)
+				if rapid.IntRange(0, 2).Draw(t, "hcsDel") == 0 {
+					pairs = append(pairs, &iavl.KVPair{Delete: true, Key: k})
+				} else {
+					pairs = append(pairs, &iavl.KVPair{Key: k, Value: []byte{byte('0' + j)}})
+				}
+			}
+			if v := w.checkHostileChangeSet(pairs); v != nil {
+				return v
+			}
+		}
 		return w.checkChangeSetReplay()
 	},
 }
@@ -398,6 +422,7 @@ func registerAllSpecs() {
 	for _, s := range allSpecs {
 		worldSpecs[s.Prop] = s
 	}
+	worldSpecs["C09"] = c09Instance(specC09())
 }
 
 var _ = strings.Contains
